@@ -472,7 +472,11 @@ class ScaledInteger(HasUnit, DataType):
     def import_value(self, value):
         """returns a python object from serialisation"""
         try:
-            return self.scale * int(value)
+            intval = int(value)
+            if isinstance(value, str) or intval != value:
+                # do not take a string as a number, do not truncate fractions
+                raise ValueError
+            return self.scale * intval
         except Exception:
             raise WrongTypeError(f'can not import {shortrepr(value)} to scaled') from None
 
